@@ -76,9 +76,15 @@ def build(src, extra_src):
     for e in extra:
         e = e.replace('$REPO', REPO)
         expanded += sorted(glob.glob(e)) if '*' in e else [e]
+    # lines `// fuzz-flags: <compiler flags, $REPO and $ROOT expanded>` and `// fuzz-libs: <libraries>` in the target source
+    more_flags, libs = [], []
+    for m in re.finditer(r'^//\s*fuzz-flags:\s*(.*)$', open(src).read(), re.M):
+        more_flags += [x.replace('$REPO', REPO).replace('$ROOT', ROOT) for x in m.group(1).split()]
+    for m in re.finditer(r'^//\s*fuzz-libs:\s*(.*)$', open(src).read(), re.M):
+        libs += m.group(1).split()
     rh = repo_hash()
     deps = [src] + local_headers(src)
-    key = hashlib.sha256(json.dumps([rh, file_hash(deps), BASE_FLAGS, FUZZ_FLAGS, expanded], sort_keys=True).encode()).hexdigest()[:20]
+    key = hashlib.sha256(json.dumps([rh, file_hash(deps), BASE_FLAGS, FUZZ_FLAGS, expanded, more_flags, libs], sort_keys=True).encode()).hexdigest()[:20]
     bdir = os.path.join(CACHE, 'build', rh[:12] + '-' + name + '-' + key)
     exe = os.path.join(bdir, name)
     if os.path.exists(exe):
@@ -86,7 +92,7 @@ def build(src, extra_src):
         return name, exe
     os.makedirs(bdir, exist_ok=True)
     tmp = exe + '.tmp%d' % os.getpid()
-    cmd = ['clang++'] + BASE_FLAGS + FUZZ_FLAGS + INC + ['-I' + os.path.dirname(src), src] + expanded + ['-o', tmp]
+    cmd = ['clang++'] + BASE_FLAGS + FUZZ_FLAGS + more_flags + INC + ['-I' + os.path.dirname(src), src] + expanded + libs + ['-o', tmp]
     t0 = time.time()
     r = subprocess.run(cmd, stdout=subprocess.PIPE, stderr=subprocess.STDOUT, text=True)
     if r.returncode != 0:
